@@ -78,9 +78,9 @@ CHECKS['C04'] = dict(
                                  'ld --wrap replaces only the AesGenerator4R call made by VmBase::generateProgram'],
     stages=[
         dict(name='jit', harness=H('c04', ['harness/c04_jit.cpp'], ldflags=PROG_LD),
-             plan={'quick': 'jit_vs_interp=12000,jit_light=1500', 'thorough': 'jit_vs_interp=600000,jit_light=60000'}),
+             plan={'quick': 'jit_vs_interp=12000,jit_light=1500', 'thorough': 'jit_vs_interp=300000,jit_light=30000'}),
         dict(name='fuzz', kind='fuzz', target='jit', harness=H('fz_jit', ['fuzz/fuzz_jit_vs_interp.cpp'], variant='fuzz', ldflags=PROG_LD), max_len=3216,
-             runs={'quick': 8000, 'thorough': 2000000}),
+             runs={'quick': 8000, 'thorough': 600000}),
     ],
 )
 
@@ -113,7 +113,7 @@ CHECKS['C06'] = dict(
     assumptions=COMMON_ASSUME + ['JIT-emitted code is not sanitizer-instrumented: its accesses are only caught at page granularity by the guard pages (scratchpad 2 MiB, cache 256 MiB and code buffers are page multiples, the dataset is end-aligned)'],
     stages=[
         dict(name='bounds', harness=H('c06', ['harness/c06_bounds.cpp'], variant='asan', ldflags=PROG_LD + GUARD_LD),
-             plan={'quick': 'bounds_prog=3200,bounds_api=1200', 'thorough': 'bounds_prog=300000,bounds_api=60000'}),
+             plan={'quick': 'bounds_prog=3200,bounds_api=1200', 'thorough': 'bounds_prog=60000,bounds_api=20000'}),
     ],
 )
 
@@ -128,11 +128,11 @@ CHECKS['C05'] = dict(
     assumptions=COMMON_ASSUME + ['model/ref_vm.cpp is a correct reading of specs.md ch.4-5; the opcode order is the order of Tables 5.2.1-5.5.1 (pinned; the 10 published digests depend on it)'],
     stages=[
         dict(name='step', harness=H('c05', ['harness/c05_step.cpp'], model=True, cflags=['-fno-access-control']),
-             plan={'quick': 'step=60000', 'thorough': 'step=6000000'}),
+             plan={'quick': 'step=60000', 'thorough': 'step=3000000'}),
         dict(name='fuzz', kind='fuzz', target='step', harness=H('fz_step', ['fuzz/fuzz_step_vs_model.cpp'], variant='fuzz', model=True, cflags=['-fno-access-control']), max_len=800,
-             runs={'quick': 240000, 'thorough': 20000000}),
+             runs={'quick': 240000, 'thorough': 6000000}),
         dict(name='prog', harness=H('c05p', ['harness/c05_prog.cpp'], model=True, ldflags=PROG_LD),
-             plan={'quick': 'prog_vs_model=480', 'thorough': 'prog_vs_model=40000'}),
+             plan={'quick': 'prog_vs_model=480', 'thorough': 'prog_vs_model=10000'}),
     ],
 )
 
@@ -147,7 +147,7 @@ CHECKS['C09'] = dict(
     assumptions=COMMON_ASSUME + ['model/ref_superscalar.cpp: the generator details specs.md 6.3 leaves open (draw order, look-ahead 4, throw-away limit 256) are pinned to upstream; validated by the 10 published digests'],
     stages=[
         dict(name='keys', harness=H('c09', ['harness/c09_superscalar.cpp'], model=True),
-             plan={'quick': 'keys=16000', 'thorough': 'keys=1600000'}),
+             plan={'quick': 'keys=16000', 'thorough': 'keys=800000'}),
     ],
 )
 
@@ -176,7 +176,7 @@ CHECKS['C08'] = dict(
     assumptions=COMMON_ASSUME + ['model/ref_superscalar.cpp + ref_argon2.cpp as reading of specs.md ch.6-7 (validated by the published digests)', 'page-granular detection of stray stores outside opened pages, byte-granular inside them'],
     stages=[
         dict(name='ranges', harness=H('c08', ['harness/c08_dataset.cpp'], model=True),
-             plan={'quick': 'ranges=3000', 'thorough': 'ranges=200000,full=all'}),
+             plan={'quick': 'ranges=3000', 'thorough': 'ranges=60000,full=all'}),
     ],
 )
 
@@ -189,7 +189,7 @@ CHECKS['C01'] = dict(
     assumptions=COMMON_ASSUME + ['LARGE_PAGES is outside the property quantifier (covered under C15)', 'a defect common to all configurations is invisible to this differential (C02 covers it)'],
     stages=[
         dict(name='configs', harness=H('c01', ['harness/c01_configs.cpp']), workers={'quick': 2, 'thorough': 4}, env={'VERIF_CASE_TIMEOUT': '1800'}, replays=2, replay_timeout=1800,
-             plan={'quick': 'configs=2', 'thorough': 'configs=16'}),
+             plan={'quick': 'configs=2', 'thorough': 'configs=32'}),
     ],
 )
 
@@ -206,7 +206,7 @@ CHECKS['C03'] = dict(
                                  'any conforming allocator may return a freed address again and leaves fresh memory indeterminate'],
     stages=[
         dict(name='history', harness=H('c03', ['harness/c03_history.cpp'], ldflags=GARBAGE_LD),
-             plan={'quick': 'history=48:60,history_ds=2:30', 'thorough': 'history=1600:100,history_ds=32:40'}, env={'VERIF_CASE_TIMEOUT': '600'}),
+             plan={'quick': 'history=48:60,history_ds=2:30', 'thorough': 'history=480:100,history_ds=16:40'}, env={'VERIF_CASE_TIMEOUT': '600'}),
     ],
 )
 
@@ -219,7 +219,7 @@ CHECKS['C16'] = dict(
     assumptions=COMMON_ASSUME + ['the interposed mmap/mprotect log sees every request of the statically linked library; the executable stack caused by the missing .note.GNU-stack in jit_compiler_x86_static.S is not a library-owned code buffer and is ignored'],
     stages=[
         dict(name='secure', harness=H('c16', ['harness/c03_history.cpp'], cflags=['-DWITH_PROT_ORACLE'], ldflags=GARBAGE_LD + ['-Wl,--wrap=mmap', '-Wl,--wrap=munmap', '-Wl,--wrap=mprotect']),
-             plan={'quick': 'secure=48:60,secure_ds=2:30', 'thorough': 'secure=1600:100,secure_ds=32:40'}, env={'VERIF_CASE_TIMEOUT': '600'}),
+             plan={'quick': 'secure=48:60,secure_ds=2:30', 'thorough': 'secure=480:100,secure_ds=16:40'}, env={'VERIF_CASE_TIMEOUT': '600'}),
     ],
 )
 
@@ -232,7 +232,7 @@ CHECKS['C13'] = dict(
     assumptions=COMMON_ASSUME + ['MXCSR read with stmxcsr immediately around the call; the harness does no floating-point work while exceptions are unmasked'],
     stages=[
         dict(name='fpenv', harness=H('c13', ['harness/c13_fpenv.cpp']),
-             plan={'quick': 'fpenv=640', 'thorough': 'fpenv=40000'}),
+             plan={'quick': 'fpenv=640', 'thorough': 'fpenv=12000'}),
     ],
 )
 
@@ -250,7 +250,7 @@ CHECKS['C15'] = dict(
     exhaustive={'quick': True, 'thorough': True},
     stages=[
         dict(name='faults', harness=H('c15', ['harness/c15_lifecycle.cpp'], ldflags=FAULT_LD),
-             plan={'quick': 'faults=all,cycles=160:40', 'thorough': 'faults=all,cycles=20000:100'}),
+             plan={'quick': 'faults=all,cycles=160:40', 'thorough': 'faults=all,cycles=5000:100'}),
     ],
 )
 
@@ -264,7 +264,7 @@ CHECKS['C14'] = dict(
                                  'interleavings are produced by the OS scheduler over generated yields, not enumerated'],
     stages=[
         dict(name='tsan', harness=H('c14', ['harness/c14_threads.cpp'], variant='tsan'), workers={'quick': 8, 'thorough': 8}, env={'VERIF_CASE_TIMEOUT': '900'},
-             plan={'quick': 'workload=40:30', 'thorough': 'workload=900:60,workload_owncache=100:30'}),
+             plan={'quick': 'workload=40:30', 'thorough': 'workload=240:60,workload_owncache=48:30'}),
     ],
 )
 
@@ -279,7 +279,7 @@ CHECKS['C17'] = dict(
                                  'big-endian byte order paths of blake2/endian.h are not reachable on this host'],
     stages=[
         dict(name='portable', harness=H('c17', ['harness/c17_portable.cpp'], ldflags=PROG_LD), env=lambda V: {'VERIF_PORTABLE_SO': V.ensure_portable_so()},
-             plan={'quick': 'functions=400000,programs=320,hashes=16', 'thorough': 'functions=100000000,programs=40000,hashes=1000'}),
+             plan={'quick': 'functions=400000,programs=320,hashes=16', 'thorough': 'functions=50000000,programs=8000,hashes=320'}),
     ],
 )
 
@@ -295,7 +295,7 @@ CHECKS['C19'] = dict(
     pre=lambda: _words_clean(), post=lambda V, p, t: _post_c19(V, p, t),
     stages=[
         dict(name='a64', env={'VERIF_WORDS_DIR': WORDS_DIR}, harness=H('c19', ['harness/c19_a64.cpp', 'emu/a64_host.cpp'], model=True, cflags=['-fno-access-control'], ldflags=PROG_LD + ['-Wl,--wrap=allocMemoryPages'], extra_objs=[lambda V: V.ensure_cross_blob('a64')]),
-             plan={'quick': 'a64_prog=320,a64_dataset=64', 'thorough': 'a64_prog=100000,a64_dataset=20000'}),
+             plan={'quick': 'a64_prog=320,a64_dataset=64', 'thorough': 'a64_prog=12000,a64_dataset=2400'}),
     ],
 )
 
@@ -374,7 +374,7 @@ CHECKS['C20'] = dict(
     pre=lambda: _words_clean(), post=lambda V, p, t: _post_c20(V, p, t),
     stages=[
         dict(name='rv64', env={'VERIF_WORDS_DIR': WORDS_DIR}, harness=H('c20', ['harness/c20_rv64.cpp', 'emu/rv64_host.cpp'], model=True, cflags=['-fno-access-control'], ldflags=PROG_LD + ['-Wl,--wrap=allocMemoryPages'], extra_objs=[lambda V: V.ensure_cross_blob('rv64')]),
-             plan={'quick': 'rv64_prog=320,rv64_dataset=64', 'thorough': 'rv64_prog=100000,rv64_dataset=20000'}),
+             plan={'quick': 'rv64_prog=320,rv64_dataset=64', 'thorough': 'rv64_prog=12000,rv64_dataset=2400'}),
     ],
 )
 
@@ -400,7 +400,7 @@ CHECKS['C02'] = dict(
     pre=_c02_clean,
     stages=[
         dict(name='spec', harness=H('c02', ['harness/c02_spec.cpp'], model=True, cflags=['-DWITH_MODEL']), args=['--aux', C02_AUX],
-             plan={'quick': 'spec=32', 'thorough': 'spec=480'}),
+             plan={'quick': 'spec=32', 'thorough': 'spec=240'}),
         dict(name='chk', harness=H('c02x', ['harness/c02_spec.cpp'], variant='chk'), args=['--aux', C02_AUX],
              plan={'quick': 'xbuild=all', 'thorough': 'xbuild=all'}),
         dict(name='asan', harness=H('c02x', ['harness/c02_spec.cpp'], variant='asan'), args=['--aux', C02_AUX],
